@@ -191,7 +191,9 @@ def predict_case(draw):
         qs.append([j, uu * pc["span"] * 60])
     arr_shape = draw(st.sampled_from(["scalar", "1d", "2d", "col"]))
     return {"pc": pc, "subset": subset, "q": qs, "arr": arr_shape, "x": draw(st.floats(-0.25, 0.25)), "deriv_n": draw(st.integers(0, 2)),
-            "subset_via": draw(st.sampled_from(["table", "table", "text"])), "warm_parent": draw(st.booleans())}
+            "subset_via": draw(st.sampled_from(["table", "table", "text"])), "warm_parent": draw(st.booleans()),
+            # the time scale the query times are written in (the instants are the same)
+            "tscale": draw(st.sampled_from(["utc", "utc", "tai", "tt"]))}
 
 
 def q_time(ents_all, j, off):
@@ -241,8 +243,13 @@ def run_predict(case, stt):
     check(len(iv) == len(exp_iv), "intervals: {} intervals, the spans merge (1 ms tolerance) into {}", len(iv), len(exp_iv))
     for (a, b), (ea, eb) in zip(iv, exp_iv):
         check(abs(O.T(a) - ea) <= F(1, 10**9) and abs(O.T(b) - eb) <= F(1, 10**9), "intervals: [{}, {}] differs from the merged spans", a.mjd, b.mjd)
-    times = [q_time(all_ents, j, off) for j, off in case["q"]]
+    tscale = case.get("tscale", "utc")
+    half = pc["span"] * 30.0
+    # (a time exactly on a span edge, re-expressed in another scale, comes back ~1e-11 s off: which side it lands on is astropy's rounding)
+    qs = [(j, off if tscale == "utc" else max(-half + 1e-6, min(half - 1e-6, off))) for j, off in case["q"]]
+    times = [getattr(q_time(all_ents, j, off), tscale) for j, off in qs]
     Ts = [O.T(t) for t in times]
+    stt.label("times_in_" + tscale)
     # scalar predictions
     first = []
     with lib("predictor(time)"):
@@ -253,7 +260,7 @@ def run_predict(case, stt):
         check(type(ph) is pb.Phase, "prediction is a {}", type(ph).__name__)
         used.append(check_phase(pred_exact(ph)[0], T, ents, "scalar time"))
     # array predictions (1-d, 2-d with rows in different entries, column)
-    tt = Time([t.jd1 for t in times], [t.jd2 for t in times], format="jd", scale="utc")
+    tt = Time([t.jd1 for t in times], [t.jd2 for t in times], format="jd", scale=tscale)
     if case["arr"] == "2d" and len(times) >= 2:
         k = len(times) // 2 * 2
         srt = sorted(range(k), key=lambda i: Ts[i])
@@ -323,10 +330,10 @@ def run_predict(case, stt):
     outside = [ivs[0][0] - 5, ivs[-1][1] + 5] + [(a[1] + b[0]) / 2 for a, b in zip(ivs, ivs[1:]) if b[0] - a[1] > F(1, 100)]
     base = all_ents[0]
     for To in outside:
-        t_out = base.tmid + float(To - base.T) * u.s
+        t_out = getattr(base.tmid + float(To - base.T) * u.s, tscale)
         must_raise("time outside every span", lambda: pred(t_out), (ValueError,))
         must_raise("f0 outside every span", lambda: pred.f0(t_out), (ValueError,))
-    mixed = Time([times[0].jd1, t_out.jd1], [times[0].jd2, t_out.jd2], format="jd", scale="utc")
+    mixed = Time([times[0].jd1, t_out.jd1], [times[0].jd2, t_out.jd2], format="jd", scale=tscale)
     must_raise("array with one time outside", lambda: pred(mixed), (ValueError,))
     if len(times) >= 2:
         w = tt.copy()
